@@ -114,6 +114,12 @@ func (s *state) removeTorrent(h core.InfoHash, err error) {
 		if err := s.sched.torrentArchive.DeleteTorrent(ctrl.dispatcher.Digest()); err != nil {
 			s.sched.log().Errorf("Error deleting torrent from archive: %s", err)
 		}
+	} else {
+		// The torrent may have completed without its completion event having
+		// been applied yet, in which case clients are still waiting on it.
+		for _, errc := range ctrl.errors {
+			errc <- err
+		}
 	}
 	delete(s.torrentControls, h)
 }
